@@ -27,6 +27,27 @@ func runChain(prop string) {
 	if prop == "C02" {
 		scs = chainh.SlotScenarios(run.Tier)
 	}
+	// the synthetic (non-initial-state) parts run first: they are cheap and must not depend on what the history
+	// exploration leaves of the budget
+	var syn chainh.SynthStats
+	if prop == "C07" {
+		// part (b): synthetic registries (states no short chain reaches)
+		var wg sync.WaitGroup
+		for _, p := range []*chainh.Preset{chainh.T4(chainh.AllForks), chainh.TSync32(chainh.AllForks)} {
+			wg.Add(1)
+			go func(p *chainh.Preset) { defer wg.Done(); chainh.SyntheticRegistries(run, p, run.Tier == "thorough", &syn) }(p)
+		}
+		wg.Wait()
+		fmt.Fprintf(os.Stderr, "C07 synthetic registries: states=%d slot-transitions=%d skipped=%d\n", syn.States, syn.Transitions, syn.Skipped)
+		run.Set("synthetic_registry_states", syn.States)
+		run.Set("synthetic_slot_transitions", syn.Transitions)
+	}
+	if prop == "C02" {
+		// synthetic epoch-processing inputs (states no short chain reaches), one epoch transition each
+		chainh.SyntheticEpochs(run, chainh.T4(chainh.AllForks), run.Tier == "thorough", &syn)
+		fmt.Fprintf(os.Stderr, "C02 synthetic epochs: states=%d\n", syn.States)
+		run.Set("synthetic_epoch_states", syn.States)
+	}
 	for _, sc := range scs {
 		before := st
 		opt := chainx.Options{Property: prop, K: 1, PerSlot: prop == "C02"}
@@ -67,25 +88,6 @@ func runChain(prop string) {
 		if run.Expired() {
 			break
 		}
-	}
-	var syn chainh.SynthStats
-	if prop == "C07" {
-		// part (b): synthetic registries (states no short chain reaches)
-		var wg sync.WaitGroup
-		for _, p := range []*chainh.Preset{chainh.T4(chainh.AllForks), chainh.TSync32(chainh.AllForks)} {
-			wg.Add(1)
-			go func(p *chainh.Preset) { defer wg.Done(); chainh.SyntheticRegistries(run, p, run.Tier == "thorough", &syn) }(p)
-		}
-		wg.Wait()
-		fmt.Fprintf(os.Stderr, "C07 synthetic registries: states=%d slot-transitions=%d skipped=%d\n", syn.States, syn.Transitions, syn.Skipped)
-		run.Set("synthetic_registry_states", syn.States)
-		run.Set("synthetic_slot_transitions", syn.Transitions)
-	}
-	if prop == "C02" {
-		// synthetic epoch-processing inputs (states no short chain reaches), one epoch transition each
-		chainh.SyntheticEpochs(run, chainh.T4(chainh.AllForks), run.Tier == "thorough", &syn)
-		fmt.Fprintf(os.Stderr, "C02 synthetic epochs: states=%d\n", syn.States)
-		run.Set("synthetic_epoch_states", syn.States)
 	}
 	run.Set("states", st.States+syn.States)
 	run.Set("transitions", st.Transitions+syn.Transitions)
